@@ -159,6 +159,8 @@ class _Gen:
 
     def test(self, loop=False):
         """an if/while test."""
+        if loop and self.f["nonname_test"] and self.i(0, 19) == 0:
+            return self.pick(["True", "1"])  # the "while True:" idiom: left only by break / return
         if loop and self.i(0, 9) < 7:
             # tape-driven loop tests keep the share of run-away loops low
             r = self.i(0, 3)
